@@ -3676,6 +3676,12 @@ class Session(_SessionClassMethods, EventTarget):
             else:
                 return
 
+        if not head and state._deleted and state.session_id == self.hash_key:
+            # the delete cascade reached, through a collection that still
+            # holds it, an object whose DELETE was already emitted by a
+            # flush of the current transaction
+            return
+
         to_attach = self._before_attach(state, obj)
 
         if state in self._deleted:
